@@ -173,6 +173,12 @@ impl BaseBindingsGenerator for TypeScriptBindingsGenerator {
             }
         }
 
+        // A type covered by a type mapping is rendered as its mapped type
+        // everywhere, so it must not be declared under its own name as well
+        if let Some(ref mappings) = config.type_mappings {
+            used_structs.retain(|name, _| !mappings.contains_key(name));
+        }
+
         // Create file writer
         let mut file_writer = FileWriter::new(output_path)?;
 
